@@ -1464,6 +1464,9 @@ def run(ctx: Ctx) -> None:
     ctx.attempt(rule_r4_depth, ctx)
     ctx.attempt(rule_r5_file_names, ctx)
     ctx.attempt(rule_r6_fresh_exceptions, ctx)
+    from . import c13text
+
+    c13text.run(ctx)
     g = CallGraph(repo)
     ctx.analysed["callgraph"] = g.stats()
     kinds = Kinds(ctx, g)
